@@ -333,7 +333,7 @@ def run_job(lines, corrupt=(), holds=None, deadline=20.0, pauses=()):
             "job": [list(x.encode("ascii")) for x in job], "raw": lines, "ev": ev}
 
 
-def run_life(jobs, actions, corrupt=(), holds=None, deadline=25.0):
+def run_life(jobs, actions, corrupt=(), holds=None, deadline=25.0, preamble=()):
     """The job life cycle of the real printcore (beyond C15): several startprint() calls, pause(), resume(),
     cancelprint() and the host command ';@pause' inside a job.
     jobs: list of jobs (lists of raw lines); the first is started at once.
@@ -373,6 +373,18 @@ def run_life(jobs, actions, corrupt=(), holds=None, deadline=25.0):
             time.sleep(0.05)
             with hub.lock:
                 hub.released.clear()
+            for cmd in preamble:                      # e.g. G91: sent (and analysed) before the first job; not part of the trace
+                p.send_now(cmd)
+            if preamble:
+                t1 = time.monotonic()
+                while time.monotonic() - t1 < 2.0 and len([e for e in hub.events if e["k"] == "rel"]) < len(preamble):
+                    hub.pump()
+                    time.sleep(0.001)
+                drain(0.5)
+                with hub.lock:
+                    hub.events.append({"k": "pre_end"})
+                    hub.ntx = 0
+                    hub.nrel = 0
             hub.log({"k": "start", "job": nextjob + 1})
             if not p.startprint(gcoder.GCode(jobs[nextjob])):
                 raise RuntimeError("startprint refused")
@@ -441,7 +453,11 @@ def run_life(jobs, actions, corrupt=(), holds=None, deadline=25.0):
                 p.disconnect()
             except Exception:
                 pass
-    ev = [e for e in hub.events if e["k"] in ("tx", "rel", "end", "pause", "resume", "cancel", "start")]
+    evs = hub.events
+    if preamble:
+        cut = [i for i, e in enumerate(evs) if e["k"] == "pre_end"]
+        evs = evs[cut[0] + 1:] if cut else evs
+    ev = [e for e in evs if e["k"] in ("tx", "rel", "end", "pause", "resume", "cancel", "start")]
     for e in ev:
         e.setdefault("text", [])
         e.setdefault("bad", False)
